@@ -163,6 +163,7 @@ type program struct {
 func (e *env) genProgram(rng *rand.Rand) *program {
 	p := &program{meta: map[int]*meta{}, nodes: map[int]*evmx.Node{}, ctxOf: map[int]common.Address{}}
 	p.addrs = []common.Address{e.pool[0]}
+	cancelUsed = map[common.Address]bool{}
 	var gen func(depth int, ctx common.Address, static bool) []*evmx.Node
 	gen = func(depth int, ctx common.Address, static bool) []*evmx.Node {
 		n := 2 + rng.Intn(4)
@@ -226,6 +227,7 @@ func (e *env) genProgram(rng *rand.Rand) *program {
 }
 
 var lastMethod, lastMode string
+var cancelUsed = map[common.Address]bool{}
 
 // genPre fills a precompile call: method, calldata, kind, value, intended outcome.
 func (e *env) genPre(rng *rand.Rand, nd *evmx.Node, ctx common.Address, static bool) {
@@ -281,8 +283,9 @@ func (e *env) genPre(rng *rand.Rand, nd *evmx.Node, ctx common.Address, static b
 	case "cancelSendToExternal":
 		nd.To = e.cross
 		id := uint64(999999)
-		if ids := e.txids[ctx]; len(ids) > 0 && mode == "ok" {
+		if ids := e.txids[ctx]; len(ids) > 0 && mode == "ok" && !cancelUsed[ctx] {
 			id = ids[0]
+			cancelUsed[ctx] = true // a second cancel of the same tx would depend on the fate of the first
 		} else {
 			mode = "fail"
 		}
